@@ -29,7 +29,7 @@ COMPONENTS = {"real": ["BoxPortfolio", "DiscretePortfolio", "PortfolioSpace.make
               "harness": ["malformed-action catalogue", "delivery model"], "stub": []}
 PROBE_FLOORS = {"malformed_nan": 11, "malformed_shape": 34, "malformed_bound_ulp": 12, "malformed_bad_index": 40,
                 "malformed_deep_in_queue_episode_ends_first": 10, "in_space_on_bound": 50, "list_action": 116, "float32_action": 125,
-                "cash_entry_ignored": 200, "discrete_nr_contracts_mode": 30, "frictionless_weights_checked": 200, "malformed_rejected_when_due": 177, "xy_allocation_checked": 500, "xy_delay_zero": 200, "xy_malformed_rejected": 30, "chain_action_resolved_by_model": 3000, "chain_with_month_offset": 1000}
+                "cash_entry_ignored": 200, "discrete_nr_contracts_mode": 30, "frictionless_weights_checked": 200, "malformed_rejected_when_due": 177, "xy_allocation_checked": 500, "xy_delay_zero": 200, "xy_bounds_exclude_zero": 100, "xy_malformed_rejected": 30, "chain_action_resolved_by_model": 3000, "chain_with_month_offset": 1000}
 
 PROFILE = {
     "n_min": 3, "n_max": 10, "n_long": 20, "p_long": 0.05, "c_min": 1, "c_max": 3, "p_bar": 1.0, "extras_max": 4,
@@ -165,7 +165,17 @@ def generate_xy(rng, i):
         a[0] = round(0.01 * (k + 1), 4)            # distinct actions: an executed allocation identifies its submission
         acts.append(a)
     bad_at = rng.randint(0, 8) if rng.random() < 0.5 else None
-    return {"kind": "xy", "tables": tb, "kwargs": kw, "fold": None, "actions": acts, "bad_at": bad_at, "np_seed": rng.randrange(2 ** 31)}
+    sc = {"kind": "xy", "tables": tb, "kwargs": kw, "fold": None, "actions": acts, "bad_at": bad_at, "np_seed": rng.randrange(2 ** 31)}
+    if i % 3 == 0:
+        # declared exposure limits that exclude zero (a minimum weight per asset: max_short > 0), no delay (the padding
+        # null action would itself be outside); the malformed action lies between zero and the declared floor
+        kw["max_short"], kw["max_long"], kw["steps_delay"] = 0.125, 0.625, 0
+        for k, a in enumerate(acts):
+            acts[k] = [round(0.125 + abs(x) % 0.25, 4) for x in a]
+            acts[k][0] = round(0.13 + 0.01 * k, 4)
+        sc["bad_value"] = rng.choice([0.0, 0.0625, -0.2])
+        sc["bounds_exclude_zero"] = True
+    return sc
 
 
 def execute_xy(scenario):
@@ -200,7 +210,7 @@ def execute_xy(scenario):
                 a = np.array(acts[k], dtype=float)
                 if bad_at is not None and k == bad_at:
                     a = a.copy()
-                    a[0] = 7.5                   # outside the space's bounds [-1, 1]
+                    a[0] = scenario.get("bad_value", 7.5)      # outside the space's bounds ([-1, 1] unless declared otherwise)
                     pending_bad = k
                 n_before = len(env.broker.track_record)
                 hold_before = {str(getattr(c, "symbol", c)): float(q) for c, q in env.broker.holdings_quantity.items() if q != 0 and type(c).__name__ != "Cash"}
@@ -239,6 +249,8 @@ def execute_xy(scenario):
                 probe("xy_allocation_checked")
                 if d == 0:
                     probe("xy_delay_zero")
+                if scenario.get("bounds_exclude_zero"):
+                    probe("xy_bounds_exclude_zero")
                 k += 1
     return {"violations": violations, "digest": core.digest(log), "probes": probes, "faults": {"malformed_action": 1} if bad_at is not None else {},
             "stats": {"ops": len(log), "steps": len(log)}, "trace": "xy|d{}|b{}|n{}".format(d, bad_at, executed), "nontrivial": executed >= 1}
